@@ -111,7 +111,7 @@ Section Pushes.
   Proof.
     intros ms ps. unfold pushes.
     set (F := fun (acc : option (list (nat * nat))) (k : str) =>
-                match acc, scan_deps apropos (map_keys A ms) fuel k, index_of A k ms with
+                match acc, scan_deps apropos (map_keys A ms) fuel k k, index_of A k ms with
                 | Some l, Some ds, Some o =>
                     Some (l ++ flat_map (fun d => match index_of A d ms with
                                                   | Some i => [(i, o)]
@@ -128,7 +128,7 @@ Section Pushes.
       - apply (IH (F acc k)); [|assumption].
         intros l Hl. unfold F in Hl.
         destruct acc as [l0|]; [|discriminate].
-        destruct (scan_deps apropos (map_keys A ms) fuel k) as [ds|]; [|discriminate].
+        destruct (scan_deps apropos (map_keys A ms) fuel k k) as [ds|]; [|discriminate].
         destruct (index_of A k ms) as [o|] eqn:Eo; [|discriminate].
         inversion Hl; subst. intros e He. apply in_app_or in He. destruct He as [He|He].
         + apply (Hacc l0 eq_refl). assumption.
